@@ -32,6 +32,19 @@ def skipNlPair (d : Nat) : Bytes → Bytes
   | e :: r => if isNl e ∧ e ≠ d then r else e :: r
   | [] => []
 
+/-- number of line ends in a piece of source text (manual §2.1 / llex.c inclinenumber: LF, CR, CRLF and LFCR are
+    ONE line end each, paired greedily from the left).  A token stands on line `1 + lineEnds (text before it)`,
+    wherever in the chunk that text lies. -/
+def lineEndsAux : Bytes → Nat → Nat
+  | [], acc => acc
+  | [c], acc => if isNl c then acc + 1 else acc
+  | c :: d :: r, acc =>
+    if isNl c then
+      if isNl d ∧ d ≠ c then lineEndsAux r (acc + 1) else lineEndsAux (d :: r) (acc + 1)
+    else lineEndsAux (d :: r) acc
+
+def lineEnds (s : Bytes) : Nat := lineEndsAux s 0
+
 /-- body of a short string after the opening delimiter `q`: (denoted bytes, input after the closing delimiter).
     `none` = malformed (unfinished string, escape > 255). -/
 def readShort (q : Nat) : Nat → Bytes → Option (Bytes × Bytes)
